@@ -1,5 +1,7 @@
 import Gv.Model.Compress
 import Gv.Spec.Bag
+import Gv.Spec.Dedup
+import Gv.Proofs.DedupLoop
 /-!
 # C13 — de-duplication and site compression lose nothing but redundancy
 -/
@@ -219,6 +221,193 @@ theorem additive_statistic_preserved (f : List Byte → Nat) (cols : List (List 
     exact List.Perm.foldl_eq' h (fun x _ y _ z => by omega) 0
   exact (hsum _ _ hp).symm
 
+/-! ## the model of `Compress()` itself -/
+
+private theorem bumpPat_mem (p : List Byte) (tbl : List (List Byte × Nat)) :
+    ∀ e ∈ bumpPat p tbl, (e.1 = p ∨ e.1 ∈ tbl.map Prod.fst) ∧ 0 < e.2 ∨ e ∈ tbl := by
+  induction tbl with
+  | nil => intro e he; simp [bumpPat] at he; subst he; simp
+  | cons e0 t ih =>
+    obtain ⟨q, n⟩ := e0
+    intro e he
+    simp only [bumpPat] at he
+    split at he
+    · rcases List.mem_cons.mp he with rfl | h
+      · left; simp
+      · right; exact List.mem_cons_of_mem _ h
+    · split at he
+      · rcases List.mem_cons.mp he with rfl | h
+        · left; simp
+        · right; exact h
+      · rcases List.mem_cons.mp he with rfl | h
+        · right; simp
+        · rcases ih e h with ⟨h1, h2⟩ | h1
+          · left; refine ⟨?_, h2⟩
+            rcases h1 with h1 | h1
+            · exact Or.inl h1
+            · right; simp only [List.map_cons, List.mem_cons]; exact Or.inr h1
+          · right; exact List.mem_cons_of_mem _ h1
+
+/-- every entry of the pattern table is one of the columns and has a positive weight -/
+theorem patternTable_mem (cols : List (List Byte)) : ∀ e ∈ patternTable cols, e.1 ∈ cols ∧ 0 < e.2 := by
+  have key : ∀ (cols : List (List Byte)) (acc : List (List Byte × Nat)) (S : List (List Byte)),
+      (∀ e ∈ acc, e.1 ∈ S ∧ 0 < e.2) →
+      ∀ e ∈ cols.foldl (fun a c => bumpPat c a) acc, (e.1 ∈ S ∨ e.1 ∈ cols) ∧ 0 < e.2 := by
+    intro cols
+    induction cols with
+    | nil => intro acc S h e he; exact ⟨Or.inl (h e he).1, (h e he).2⟩
+    | cons c t ih =>
+      intro acc S h e he
+      simp only [List.foldl_cons] at he
+      have h' : ∀ e ∈ bumpPat c acc, e.1 ∈ (c :: S) ∧ 0 < e.2 := by
+        intro e he
+        rcases bumpPat_mem c acc e he with ⟨h1, h2⟩ | h1
+        · refine ⟨?_, h2⟩
+          rcases h1 with h1 | h1
+          · simp [h1]
+          · obtain ⟨e', he', ee⟩ := List.mem_map.mp h1
+            rw [← ee]; exact List.mem_cons_of_mem _ (h e' he').1
+        · exact ⟨List.mem_cons_of_mem _ (h e h1).1, (h e h1).2⟩
+      obtain ⟨a1, a2⟩ := ih (bumpPat c acc) (c :: S) h' e he
+      refine ⟨?_, a2⟩
+      rcases a1 with a1 | a1
+      · rcases List.mem_cons.mp a1 with a1 | a1
+        · right; simp [a1]
+        · left; exact a1
+      · right; exact List.mem_cons_of_mem _ a1
+  intro e he
+  have := key cols [] [] (by simp) e he
+  simpa using this
+
+
+/-- the columns of rows with (cached) length `L` -/
+def columnsOf (rows : CRows) (L : Int) : List (List Byte) := (List.range L.toNat).map (columnAt rows)
+
+private theorem zipIdx_getD (p : List Byte) (rows : CRows) (h : p.length = rows.length) :
+    rows.zipIdx.map (fun ri => p.getD ri.2 0) = p := by
+  apply List.ext_getElem (by simp [h])
+  intro i h1 h2
+  simp [List.getD_eq_getElem?_getD, h2]
+
+private theorem weights_sum_eq (l : List Nat) : l.foldl (· + ·) 0 = l.sum := by
+  have hs : ∀ (l : List Nat) (a : Nat), l.foldl (· + ·) a = a + l.sum := by
+    intro l; induction l with
+    | nil => intro a; simp
+    | cons x t ih => intro a; simp only [List.foldl_cons, List.sum_cons]; rw [ih]; omega
+  simpa using hs l 0
+
+theorem compress_columns (rows : CRows) (L : Int) :
+    columnsOf (compress rows L).1 (compress rows L).2.2 = (patternTable (columnsOf rows L)).map Prod.fst := by
+  unfold compress columnsOf
+  simp only [Int.toNat_natCast]
+  apply List.ext_getElem (by simp)
+  intro j h1 h2
+  simp only [List.length_map, List.length_range] at h1 h2
+  simp only [List.getElem_map, List.getElem_range, columnAt, List.map_map, Function.comp_def]
+  have hmem := (patternTable_mem _ _ (List.getElem_mem h2)).1
+  obtain ⟨j', _, e⟩ := List.mem_map.mp hmem
+  have hlen : ((patternTable ((List.range L.toNat).map (columnAt rows)))[j]).1.length = rows.length := by
+    rw [← e]; simp [columnAt]
+  have := zipIdx_getD _ rows hlen
+  rw [← this]
+  apply List.map_congr_left
+  intro ri _
+  simp [List.getD_eq_getElem?_getD, h2]
+
+
+private theorem count_expand_of_not_mem (p : List Byte) (tbl : List (List Byte × Nat)) (h : p ∉ tbl.map Prod.fst) :
+    (expand tbl).count p = 0 := by
+  rw [List.count_eq_zero]
+  intro hm
+  simp only [expand, List.mem_flatMap, List.mem_replicate] at hm
+  obtain ⟨e, he, _, e2⟩ := hm
+  exact h (List.mem_map.mpr ⟨e, he, e2.symm⟩)
+
+private theorem count_expand (tbl : List (List Byte × Nat)) (hn : (tbl.map Prod.fst).Nodup) :
+    ∀ e ∈ tbl, (expand tbl).count e.1 = e.2 := by
+  induction tbl with
+  | nil => simp
+  | cons e0 t ih =>
+    simp only [List.map_cons, List.nodup_cons] at hn
+    have hx : expand (e0 :: t) = List.replicate e0.2 e0.1 ++ expand t := by simp [expand]
+    intro e he
+    rw [hx, List.count_append]
+    rcases List.mem_cons.mp he with rfl | he
+    · rw [count_expand_of_not_mem _ _ hn.1]; simp
+    · have hne : e0.1 ≠ e.1 := fun h => hn.1 (h ▸ List.mem_map_of_mem (f := Prod.fst) he)
+      rw [ih hn.2 e he, List.count_replicate]
+      simp [hne]
+
+/-- **Site compression loses nothing but redundancy** (the model `Model.compress` of `Compress()`): names
+and row order are kept, every row gets the new length, there is one weight per new column; the new columns
+are pairwise distinct; the weights are positive and sum to the original number of sites; expanding every
+new column by its weight gives a rearrangement of the original columns; hence every new column occurs
+among the original columns exactly as often as its weight says, and every original column is one of the
+new columns. -/
+theorem compress_spec (rows : CRows) (L : Int) :
+    (compress rows L).1.map Prod.fst = rows.map Prod.fst ∧
+    (∀ r ∈ (compress rows L).1, (r.2.length : Int) = (compress rows L).2.2) ∧
+    ((compress rows L).2.1.length : Int) = (compress rows L).2.2 ∧
+    (columnsOf (compress rows L).1 (compress rows L).2.2).Nodup ∧
+    (compress rows L).2.1.sum = L.toNat ∧ (∀ w ∈ (compress rows L).2.1, 0 < w) ∧
+    (expand ((columnsOf (compress rows L).1 (compress rows L).2.2).zip (compress rows L).2.1)).Perm (columnsOf rows L) ∧
+    (∀ e ∈ (columnsOf (compress rows L).1 (compress rows L).2.2).zip (compress rows L).2.1,
+        (columnsOf rows L).count e.1 = e.2) ∧
+    (∀ c ∈ columnsOf rows L, c ∈ columnsOf (compress rows L).1 (compress rows L).2.2) := by
+  have hc := compress_columns rows L
+  obtain ⟨_, s2, s3, s4⟩ := patternTable_spec (columnsOf rows L)
+  have hw : (compress rows L).2.1 = (patternTable (columnsOf rows L)).map Prod.snd := rfl
+  have hz : (columnsOf (compress rows L).1 (compress rows L).2.2).zip (compress rows L).2.1 = patternTable (columnsOf rows L) := by
+    rw [hc, hw]
+    exact (List.zip_of_prod rfl rfl).symm
+  refine ⟨?_, ?_, ?_, ?_, ?_, ?_, ?_, ?_, ?_⟩
+  · simp only [compress, List.map_map, Function.comp_def]
+    apply List.ext_getElem (by simp)
+    intro i h1 h2
+    simp
+  · intro r hr
+    simp only [compress, List.mem_map] at hr
+    obtain ⟨ri, _, e⟩ := hr
+    subst e
+    simp [compress]
+  · simp [compress]
+  · rw [hc]; exact s2
+  · rw [hw, ← weights_sum_eq, s3]; simp [columnsOf]
+  · intro w hwm
+    rw [hw] at hwm
+    obtain ⟨e, he, ee⟩ := List.mem_map.mp hwm
+    rw [← ee]; exact (patternTable_mem _ e he).2
+  · rw [hz]; exact s4
+  · rw [hz]
+    intro e he
+    rw [← s4.count_eq]
+    exact count_expand _ s2 e he
+  · intro c hcm
+    rw [hc]
+    have : c ∈ expand (patternTable (columnsOf rows L)) := s4.symm.subset hcm
+    simp only [expand, List.mem_flatMap, List.mem_replicate] at this
+    obtain ⟨e, he, _, e2⟩ := this
+    exact List.mem_map.mpr ⟨e, he, e2.symm⟩
+
+
+private theorem sum_map_expand (f : List Byte → Nat) (tbl : List (List Byte × Nat)) :
+    ((expand tbl).map f).sum = (tbl.map fun e => e.2 * f e.1).sum := by
+  induction tbl with
+  | nil => simp [expand]
+  | cons e t ih =>
+    have hx : expand (e :: t) = List.replicate e.2 e.1 ++ expand t := by simp [expand]
+    rw [hx, List.map_append, List.sum_append, ih]
+    simp [List.map_replicate, List.sum_replicate_nat]
+
+/-- **a column-additive statistic is preserved by `Compress()`**: the sum of `f` over the original columns
+equals the weighted sum over the compressed columns -/
+theorem compress_additive_statistic (f : List Byte → Nat) (rows : CRows) (L : Int) :
+    ((columnsOf rows L).map f).sum =
+      (((columnsOf (compress rows L).1 (compress rows L).2.2).zip (compress rows L).2.1).map fun e => e.2 * f e.1).sum := by
+  have hp := (compress_spec rows L).2.2.2.2.2.2.1
+  rw [← sum_map_expand]
+  exact ((hp.map f).sum_nat).symm
+
 /-! ## de-duplication (reference model of C01) -/
 
 /-- rows kept by the reference de-duplication -/
@@ -290,9 +479,234 @@ theorem dedup_distinct_and_complete (key : Seq → Seq) (rows : List (String × 
   rw [e]
   exact ⟨a1, a4⟩
 
+
+/-! ## de-duplication: the Go-mirroring model `Model.deduplicate`
+
+`Model.deduplicate` mirrors `seqbag.Deduplicate`: the container is cleared and re-filled through
+`AddSequence` (name index, duplicate-name policy and renaming included), a map from compare-string to
+group number and the `identical` slice of slices are maintained.  The theorems below are stated for every
+container whose names are pairwise distinct — the standing assumption of the property ("uniquely named",
+C01; the reference model of C01 leaves `Deduplicate` unspecified otherwise, because re-adding a repeated
+name renames or drops the row) — every alphabet, every duplicate-name policy and both values of `nAsGap`. -/
+
+open Gv.Spec Gv.Proofs.Dedup Gv.Proofs.BagInv
+
+/-- the names of a container, in row order -/
+def names (b : Bag) : List String := b.rows.map (·.name)
+
+private theorem pairs_names (b : Bag) : (pairs b).map Prod.fst = names b := by
+  simp [pairs, names, List.map_map, Function.comp_def]
+
+/-- the model never reports an error, returns the rows and groups of the reference loop `Spec.dedupRows`,
+and leaves policy, alphabet, kind and cached length alone -/
+theorem dedup_model_eq_reference (g : Bool) (b : Bag) (hn : (names b).Nodup) :
+    (deduplicate g b).2.1 = false ∧
+    pairs (deduplicate g b).1 = (dedupRows (dedupKey b.alphabet g) (pairs b) []).map rowOf ∧
+    (deduplicate g b).2.2 = (dedupRows (dedupKey b.alphabet g) (pairs b) []).map grpOf ∧
+    SameSettings b (deduplicate g b).1 :=
+  dedupLoop_eq_dedupRows b.alphabet g b.rows (clearBase b) [] [] [] (inv_clearBase b) rfl rfl rfl
+    (by simp) (by simpa [names] using hn)
+
+/-- meaning of `Spec.firstOccs` by positions: row `i` is kept iff no earlier row has its key -/
+theorem firstOccs_mem_iff (key : Seq → Seq) (rows : List (String × Seq)) (hd : rows.Nodup) (i : Nat) (h : i < rows.length) :
+    rows[i] ∈ firstOccs key rows ↔ ∀ j (hj : j < i), key (rows[j]'(by omega)).2 ≠ key rows[i].2 := by
+  unfold firstOccs
+  simp only [List.mem_map, List.mem_filter, Bool.not_eq_true', List.any_eq_false, beq_iff_eq, Prod.exists,
+    exists_and_right, exists_eq_right]
+  constructor
+  · rintro ⟨k, hk, hall⟩ j hj
+    obtain ⟨_, hk2, e⟩ := List.mem_zipIdx hk
+    simp only [Nat.sub_zero, Nat.zero_add] at e hk2
+    have hik : i = k := (List.getElem_inj hd).mp e
+    subst hik
+    exact hall _ (List.mem_take_iff_getElem.mpr ⟨j, by omega, rfl⟩)
+  · intro hall
+    refine ⟨i, ?_, ?_⟩
+    · exact List.mem_zipIdx_iff_getElem?.mpr (by simp [h])
+    · intro y hy
+      obtain ⟨j, hj, e⟩ := List.mem_take_iff_getElem.mp hy
+      subst e
+      exact hall j (by omega)
+
+/-- **De-duplication keeps, in original order, exactly the first occurrence of every distinct sequence**
+(compared through `dedupKey`, i.e. optionally with N/X read as gaps): the rows of the result are
+`Spec.firstOccs`; they form a subsequence of the input (order kept, names and residues untouched), their
+keys are pairwise distinct, every input row has its key among them, and the row at position `i` is kept
+iff no earlier row has the same key.  No error is reported and the settings are unchanged. -/
+theorem dedup_keeps_first_occurrences_in_order (g : Bool) (b : Bag) (hn : (names b).Nodup) :
+    (deduplicate g b).2.1 = false ∧
+    pairs (deduplicate g b).1 = firstOccs (dedupKey b.alphabet g) (pairs b) ∧
+    (pairs (deduplicate g b).1).Sublist (pairs b) ∧
+    ((pairs (deduplicate g b).1).map fun x => dedupKey b.alphabet g x.2).Nodup ∧
+    (∀ r ∈ pairs b, ∃ x ∈ pairs (deduplicate g b).1, dedupKey b.alphabet g x.2 = dedupKey b.alphabet g r.2) ∧
+    (∀ i (h : i < (pairs b).length), (pairs b)[i] ∈ pairs (deduplicate g b).1 ↔
+      ∀ j (hj : j < i), dedupKey b.alphabet g ((pairs b)[j]'(by omega)).2 ≠ dedupKey b.alphabet g (pairs b)[i].2) ∧
+    SameSettings b (deduplicate g b).1 := by
+  obtain ⟨h1, h2, _, h4⟩ := dedup_model_eq_reference g b hn
+  rw [dedupRows_rows] at h2
+  have hd : (pairs b).Nodup := by
+    have : ((pairs b).map Prod.fst).Nodup := by rw [pairs_names]; exact hn
+    exact List.Pairwise.of_map Prod.fst (fun a b h e => h (by rw [e])) this
+  refine ⟨h1, h2, ?_, ?_, ?_, ?_, h4⟩
+  · rw [h2]; exact firstOccs_sublist _ _
+  · rw [h2]; exact firstOccs_keys_nodup _ _
+  · intro r hr
+    rw [h2]
+    exact (firstOccs_key_iff _ _ _).mpr ⟨r, hr, rfl⟩
+  · intro i h
+    rw [h2]
+    exact firstOccs_mem_iff _ _ hd i h
+
+/-- **The reported groups partition the input names**: concatenated they are a rearrangement of the names
+(every name in exactly one group, nothing else), and no group is empty. -/
+theorem dedup_groups_partition_names (g : Bool) (b : Bag) (hn : (names b).Nodup) :
+    ((deduplicate g b).2.2.flatten).Perm (names b) ∧ ((deduplicate g b).2.2.flatten).Nodup ∧
+    ∀ grp ∈ (deduplicate g b).2.2, grp ≠ [] := by
+  obtain ⟨_, _, h3, _⟩ := dedup_model_eq_reference g b hn
+  have hp : ((deduplicate g b).2.2.flatten).Perm (names b) := by
+    rw [h3, ← pairs_names]
+    simpa using dedupRows_partition (dedupKey b.alphabet g) (pairs b) [] (by simp)
+  refine ⟨hp, hp.nodup_iff.mpr hn, ?_⟩
+  intro grp hgrp e
+  rw [h3] at hgrp
+  obtain ⟨x, hx, ex⟩ := List.mem_map.mp hgrp
+  have := dedupRows_leader (dedupKey b.alphabet g) (pairs b) [] (by simp) x hx
+  rw [ex, e] at this
+  simp at this
+
+/-- **Each group is led by its kept representative**: there is one group per kept row, in the same order;
+the `k`-th group starts with the name of the `k`-th kept row and consists of the names of exactly the rows
+having that row's key, in original order. -/
+theorem dedup_group_led_by_kept (g : Bool) (b : Bag) (hn : (names b).Nodup) :
+    (deduplicate g b).2.2.map List.head? = (pairs (deduplicate g b).1).map (fun x => some x.1) ∧
+    (deduplicate g b).2.2 = (pairs (deduplicate g b).1).map (fun x =>
+      ((pairs b).filter fun y => dedupKey b.alphabet g y.2 == dedupKey b.alphabet g x.2).map Prod.fst) := by
+  obtain ⟨_, h2, h3, _⟩ := dedup_model_eq_reference g b hn
+  constructor
+  · rw [h2, h3, List.map_map, List.map_map]
+    apply List.map_congr_left
+    intro x hx
+    exact dedupRows_leader (dedupKey b.alphabet g) (pairs b) [] (by simp) x hx
+  · rw [h3, dedupRows_groups, h2, dedupRows_rows]
+    rfl
+
+/-- **De-duplication is idempotent**: a second pass (same `nAsGap`) keeps every row, name and residue,
+reports one singleton group per row and no error. -/
+theorem dedup_idempotent (g : Bool) (b : Bag) (hn : (names b).Nodup) :
+    (deduplicate g (deduplicate g b).1).2.1 = false ∧
+    pairs (deduplicate g (deduplicate g b).1).1 = pairs (deduplicate g b).1 ∧
+    (deduplicate g (deduplicate g b).1).2.2 = (pairs (deduplicate g b).1).map (fun x => [x.1]) ∧
+    SameSettings b (deduplicate g (deduplicate g b).1).1 := by
+  obtain ⟨_, h2, h3, _, _, _, h4⟩ := dedup_keeps_first_occurrences_in_order g b hn
+  have hn1 : (names (deduplicate g b).1).Nodup := by
+    rw [← pairs_names]
+    have := (h3.map Prod.fst)
+    rw [pairs_names, pairs_names] at this
+    rw [pairs_names]
+    exact this.nodup hn
+  obtain ⟨a1, a2, a3, a4⟩ := dedup_model_eq_reference g (deduplicate g b).1 hn1
+  have hal : (deduplicate g b).1.alphabet = b.alphabet := h4.2.1
+  rw [hal] at a2 a3
+  have hd := dedupRows_distinct (dedupKey b.alphabet g) (pairs (deduplicate g b).1) []
+    (by rw [h2]; simpa using firstOccs_keys_nodup (dedupKey b.alphabet g) (pairs b))
+  rw [hd] at a2 a3
+  refine ⟨a1, ?_, ?_, ?_⟩
+  · rw [a2]; simp [rowOf, List.map_map, Function.comp_def]
+  · rw [a3]; simp [grpOf, List.map_map, Function.comp_def]
+  · obtain ⟨b1, b2, b3, b4⟩ := a4
+    obtain ⟨c1, c2, c3, c4⟩ := h4
+    exact ⟨b1.trans c1, b2.trans c2, b3.trans c3, b4.trans c4⟩
+
+/-- **No assumption on the names** (any container whatsoever, policies NONE and IGNORE_SEQUENCE): even when a
+caller's `Rename` has made names collide — re-adding then renames rows — the kept *sequences* are exactly the
+first occurrences in original order, the groups are exactly the reference groups, and no error is reported.
+(Under IGNORE_NAME rows with a repeated name are dropped: `dedup_repeated_names_dropped`.) -/
+theorem dedup_sequences_any_names (g : Bool) (b : Bag) (hpol : b.policy ≠ IGNORE_NAME) :
+    (deduplicate g b).2.1 = false ∧
+    (pairs (deduplicate g b).1).map Prod.snd = (firstOccs (dedupKey b.alphabet g) (pairs b)).map Prod.snd ∧
+    (deduplicate g b).2.2 = groupsOf (dedupKey b.alphabet g) (pairs b) ∧
+    SameSettings b (deduplicate g b).1 := by
+  obtain ⟨a1, a2, a3, a4⟩ := dedupLoop_seqs b.alphabet g b.rows (clearBase b) [] [] [] (by simpa [clearBase] using hpol)
+    rfl (by simp) rfl rfl (by simp)
+  refine ⟨a1, ?_, ?_, a4⟩
+  · have e : (dedupRows (dedupKey b.alphabet g) (pairs b) []).map (fun e => e.2.2.1) =
+        ((dedupRows (dedupKey b.alphabet g) (pairs b) []).map rowOf).map Prod.snd := by
+      rw [List.map_map]; rfl
+    rw [← dedupRows_rows, ← e]
+    exact a2
+  · rw [← dedupRows_groups]
+    exact a3
+
+/-- what the comparison key is: the sequence itself, or (with `nAsGap`) the sequence with every `N`
+(nucleotides) resp. `X` (amino acids) replaced by a gap; other alphabets are compared literally -/
+theorem dedupKey_spec (s : Seq) :
+    (∀ a, dedupKey a false s = s) ∧
+    dedupKey NUCLEOTIDS true s = s.map (fun c => if c = 78 then GAP else c) ∧
+    dedupKey AMINOACIDS true s = s.map (fun c => if c = 88 then GAP else c) ∧
+    (∀ a, a ≠ AMINOACIDS → a ≠ NUCLEOTIDS → dedupKey a true s = s) := by
+  refine ⟨fun a => rfl, ?_, ?_, ?_⟩
+  · simp [dedupKey, NUCLEOTIDS, AMINOACIDS]
+  · simp [dedupKey, AMINOACIDS]
+  · intro a h1 h2
+    simp [dedupKey, h1, h2]
+
+/-- with `nAsGap` two nucleotide sequences are identified iff they have the same length and agree at every
+position up to exchanging `N` and `-` -/
+theorem dedupKey_nt_eq_iff (s t : Seq) :
+    dedupKey NUCLEOTIDS true s = dedupKey NUCLEOTIDS true t ↔
+      s.length = t.length ∧ ∀ i (h1 : i < s.length) (h2 : i < t.length),
+        s[i] = t[i] ∨ ((s[i] = 78 ∨ s[i] = GAP) ∧ (t[i] = 78 ∨ t[i] = GAP)) := by
+  rw [(dedupKey_spec s).2.1, (dedupKey_spec t).2.1]
+  constructor
+  · intro h
+    have hl : s.length = t.length := by simpa using congrArg List.length h
+    refine ⟨hl, fun i h1 h2 => ?_⟩
+    have := congrArg (fun l => l[i]?) h
+    simp only [List.getElem?_map, List.getElem?_eq_getElem h1, List.getElem?_eq_getElem h2, Option.map_some,
+      Option.some.injEq] at this
+    by_cases a : s[i] = 78 <;> by_cases c : t[i] = 78 <;> simp_all
+  · rintro ⟨hl, h⟩
+    apply List.ext_getElem (by simpa using hl)
+    intro i h1 h2
+    simp only [List.length_map] at h1 h2
+    simp only [List.getElem_map]
+    rcases h i h1 h2 with e | ⟨e1, e2⟩
+    · rw [e]
+    · rcases e1 with e1 | e1 <;> rcases e2 with e2 | e2 <;> simp [e1, e2, GAP]
+
 /-! ## non-vacuity -/
 
 example : patternTable [[65, 84], [67, 71], [67, 71], [65, 84]] = [([65, 84], 2), ([67, 71], 2)] := by decide
+example : compress [("a", [65, 67, 65, 65]), ("b", [84, 71, 84, 84])] 4 =
+    ([("a", [65, 67]), ("b", [84, 71])], [3, 1], 2) := by decide
+example : columnsOf [("a", [65, 67, 65, 65]), ("b", [84, 71, 84, 84])] 4 = [[65, 84], [67, 71], [65, 84], [65, 84]] := by decide
 example : keptRows id [("a", [65]), ("b", [65]), ("c", [67])] = [("a", [65]), ("c", [67])] := by decide
+
+/-- a nucleotide container with uniquely named rows `ACN, AC-, TTT, ACN, TTT` -/
+def exBag : Bag :=
+  (addAllStop (newAlign NUCLEOTIDS) [("a", [65, 67, 78]), ("b", [65, 67, 45]), ("c", [84, 84, 84]), ("d", [65, 67, 78]), ("e", [84, 84, 84])]).1
+
+example : (names exBag).Nodup := by decide
+-- literal comparison: `b` differs from `a`; with N-as-gap it joins `a`'s group
+example : pairs (deduplicate false exBag).1 = [("a", [65, 67, 78]), ("b", [65, 67, 45]), ("c", [84, 84, 84])] ∧
+    (deduplicate false exBag).2.2 = [["a", "d"], ["b"], ["c", "e"]] := by decide
+example : pairs (deduplicate true exBag).1 = [("a", [65, 67, 78]), ("c", [84, 84, 84])] ∧
+    (deduplicate true exBag).2.2 = [["a", "b", "d"], ["c", "e"]] := by decide
+example : (deduplicate true (deduplicate true exBag).1).2.2 = [["a"], ["c"]] := by decide
+
+/-- why the names must be pairwise distinct: after a caller's `Rename` has given every row the name `a`,
+re-adding renames the kept rows (policy NONE) … -/
+example : (renameWith (fun _ => "a") exBag).policy ≠ IGNORE_NAME := by decide
+
+theorem dedup_repeated_names_renamed :
+    pairs (deduplicate false (renameWith (fun _ => "a") exBag)).1 =
+      [("a", [65, 67, 78]), ("a_0001", [65, 67, 45]), ("a_0002", [84, 84, 84])] ∧
+    (deduplicate false (renameWith (fun _ => "a") exBag)).2.2 = [["a", "a"], ["a"], ["a", "a"]] := by decide
+
+/-- … or silently drops rows with distinct sequences (policy IGNORE_NAME) while still reporting their groups -/
+theorem dedup_repeated_names_dropped :
+    pairs (deduplicate false { renameWith (fun _ => "a") exBag with policy := IGNORE_NAME }).1 = [("a", [65, 67, 78])] ∧
+    (deduplicate false { renameWith (fun _ => "a") exBag with policy := IGNORE_NAME }).2.2 = [["a", "a"], ["a"], ["a", "a"]] := by
+  decide
 
 end Gv.Props.C13
